@@ -73,7 +73,8 @@ def urls_from_html(string, encoding="utf-8", errors="strict"):
         iterator = __urls_finditer(string)
 
     for url in iterator:
-        url = url.strip()
-        url = unescape(url)
+        # NOTE: stripping once unescaped, since whitespace can be written as
+        # a character reference ("&#32;", "&nbsp;")
+        url = unescape(url).strip()
 
         yield url
